@@ -236,7 +236,7 @@ func checkC07(p *core.Program, r *core.Report) {
 			continue
 		}
 		T := witnessCircuitType(fn)
-		if T == nil || delegateTarget(fn) != nil {
+		if T == nil || (delegateTarget(fn) != nil || composesProvers(fn)) {
 			continue
 		}
 		name := core.FuncName(fn)
